@@ -223,8 +223,8 @@ func (b Bundle) CheckValid() (errs error) {
 		}
 	}
 
-	// Check uniqueness of block numbers
-	var cbBlockNumbers = make(map[uint64]bool)
+	// Check uniqueness of block numbers; the block number zero belongs to the Primary Block.
+	var cbBlockNumbers = map[uint64]bool{0: true}
 	// Check max 1 occurrence of extension blocks
 	var cbBlockTypes = make(map[uint64]bool)
 
